@@ -59,7 +59,8 @@ pub fn check_case(
     // Input class of a confirmed defect (see known_findings.jsonl): modules that use
     // `substruct` onto a field-less struct get their own signature so that the finding neither
     // hides nor is hidden by anything else.
-    let class = if m.uses_substruct_to_empty() { Some("substruct-to-empty-struct") } else { None };
+    // (the substruct-to-empty-struct defect is repaired in /repo: no special input class any more)
+    let class: Option<&str> = None;
     let replay = || {
         json!({
             "workload": "random", "mode": mode, "module_seed": mseed, "function": f.name, "fidx": fi, "arg_index": ai,
